@@ -22,7 +22,7 @@ func init() {
 
 func MainC04(prop, tier string) int {
 	r := vk.New("C04", tier)
-	r.Rule = "three monitors over filter-mode output: (1) permutation: the output is a permutation of the reference matches; unsorted cases (--no-sort, negated-only, empty query) keep input order, reversed under --tac; (2) structural: the relative order of adjacent output lines and of random sub-lists equals their order when filtered alone (partitioning + per-partition sort + lazy merge == one global sort), over lists of 0,1,99,100,101,3200,3201..60000 lines, --tail, 1/2/16 CPUs; (3) semantic: on lines containing exactly one occurrence of an exact term, order == score (reference linear evaluation) desc, then each --tiebreak criterion in the documented direction, then index (reversed under --tac). distinct = (list-size class, option set, query shape | tiebreak list, scheme) signatures"
+	r.Rule = "three monitors over filter-mode output: (1) permutation: the output is a permutation of the reference matches; unsorted cases (--no-sort, negated-only, empty query) keep input order, reversed under --tac; (2) structural: the relative order of adjacent output lines and of random sub-lists equals their order when filtered alone (partitioning + per-partition sort + lazy merge == one global sort), over lists of 0,1,99,100,101,3200,3201..60000 lines, --tail, 1/2/16 CPUs; (3) semantic: on lines containing exactly one occurrence of an exact term, order == score (reference linear evaluation) desc, then each --tiebreak criterion in the documented direction, then index (reversed under --tac); (4) access pattern: the real Matcher scans a real ChunkList snapshot (0..7000 items, 1..32 partitions, --tail-trimmed first chunks) twice; one Merger is read front to back, its twin through index probes (jump ahead then read on, random probes, increasing jumps, backwards, ends first, a window followed by a full read): every probe must return the item the sequential reader found at that position, and the sequential order must equal one single-threaded global sort. distinct = (list-size class, option set, query shape | tiebreak list, scheme) signatures"
 	r.Assumptions = []string{"'end' is documented only as 'closer to the end': a pair is out of order only if the later line is better under both the absolute and the relative reading", "'pathname': lines whose match lies in the file name come first; among those, pairs with different distances to the last separator are not ordered by this oracle", "sub-list consistency uses lists of distinct lines"}
 	if _, err := fzfrun.Bin(); err != nil {
 		r.Inconclusive(err.Error())
@@ -30,6 +30,8 @@ func MainC04(prop, tier string) int {
 		return r.Finish()
 	}
 	r.Fanout("c04", vk.NumWorkers(), 40*time.Minute)
+	r.Fanout("c04access", vk.NumWorkers(), 30*time.Minute)
+	r.Floor("access_cases", 200)
 	r.Floor("orders_checked", 200)
 	r.Floor("pairs_checked", 1000)
 	r.Floor("semantic_pairs", 1000)
